@@ -59,6 +59,16 @@ pub open spec fn kama_value(pre: &KaufmanInstance, src: ValueType, post: &Kaufma
 	&&& value@ == sm * (src@ - pre.prev_value@) + pre.prev_value@
 	&&& post.prev_value == value && post.fastest == pre.fastest && post.slowest == pre.slowest
 }
+pub open spec fn kama_filtered(pre: &KaufmanInstance, src: ValueType, post: &KaufmanInstance, value: ValueType, sig: Action, c: Action) -> bool {
+	let filter = StDev::def(post.st_dev.window.view()) * pre.cfg.k@;
+	&&& Cross::step(&pre.cross, &(src, value), &post.cross, &c)
+	&&& post.st_dev.window.view() == pre.st_dev.window.view().drop_first().push(value)
+	&&& (!(c is None) ==> sig is None && post.last_signal == c && post.last_signal_value == value)
+	&&& (c is None && !(pre.last_signal is None) && rabs(value@ - pre.last_signal_value@) > filter
+			==> sig == pre.last_signal && post.last_signal is None && post.last_signal_value == pre.last_signal_value)
+	&&& (c is None && !(!(pre.last_signal is None) && rabs(value@ - pre.last_signal_value@) > filter)
+			==> sig is None && post.last_signal == pre.last_signal && post.last_signal_value == pre.last_signal_value)
+}
 impl KaufmanInstance {
 	pub open spec fn inv(&self) -> bool {
 		self.volatility.inv() && self.change.inv() && self.cross.inv() && (self.cfg.filter_period > 1 ==> self.st_dev.inv())
@@ -72,11 +82,17 @@ impl KaufmanInstance {
 		// documented signal without filtering (filter_period <= 1): the source crossing KAMA
 		old(self).cfg.filter_period <= 1 ==> exists|src: ValueType| src@ == src_val(candle, old(self).cfg.source)
 			&& #[trigger] Cross::step(&old(self).cross, &(src, r.vals()[0]), &final(self).cross, &r.sigs()[0]),
+		// with filtering (filter_period > 1; documented only as "additional filtering using standard deviation", so this states what the code does):
+		// a crossing is remembered, not reported; it is reported later, once, on the first bar without a new crossing on which KAMA has moved
+		// away from its value at the crossing by more than k standard deviations of KAMA over filter_period bars
+		old(self).cfg.filter_period > 1 ==> exists|src: ValueType, c: Action| src@ == src_val(candle, old(self).cfg.source)
+			&& #[trigger] kama_filtered(old(self), src, final(self), r.vals()[0], r.sigs()[0], c),
 //@replace let direction = self.change.next(src).abs(); ==> let ch__ = self.change.next(src); let direction = ch__.abs();
 //@hint result
 	proof {
 		assert(kama_value(old(self), *src, self, r.vals()[0], ch__, volatility));
 		if old(self).cfg.filter_period <= 1 { assert(Cross::step(&old(self).cross, &(*src, r.vals()[0]), &self.cross, &r.sigs()[0])); }
+		else { assert(kama_filtered(old(self), *src, self, r.vals()[0], r.sigs()[0], cross)); }
 	}
 //@end
 }
